@@ -7,6 +7,7 @@ package traefikoidc
 // strings, decoded cookies, structured locations) and the step runner.
 
 import (
+	"sync"
 	"io"
 	"compress/gzip"
 	"bufio"
@@ -191,11 +192,34 @@ func (in *vfIntern) idb(s string) uint64 { // interned and its bytes are given t
 
 // ---- building a world
 
+var vfEarlierOnce sync.Once
+
 func vfNewWorld(tb testingTB, cfg vfWorldCfg, nbrowsers int, r *vfRand) *vfWorld {
 	w := &vfWorld{tb: tb, cfg: cfg, r: r, in: vfNewIntern(), tokens: map[string]*vfMinted{}, compCache: map[string]string{},
 		tmplUsed: map[string]bool{}}
 	vfResetRotation()
 	w.prov = vfNewProvider(vfClientID, cfg.EndSession, r.fork(77))
+	// the process has a past: before the first history, the deployment (every session key the histories use) ran once in its most
+	// permissive configuration -- no forceHTTPS, no PKCE, no allow-lists, nothing excluded.  Instances are independent of one
+	// another, so this changes nothing -- unless something process-wide remembers what an earlier instance was configured with
+	vfEarlierOnce.Do(func() {
+		for _, k := range []string{vfKeyA, vfKeyB, vfKeyLongA, vfKeyLongB} {
+			c := CreateConfig()
+			c.ProviderURL = w.prov.issuer
+			c.CallbackURL = vfCallbackPath
+			c.LogoutURL = vfLogoutPath
+			c.ClientID = vfClientID
+			c.ClientSecret = "vf-secret"
+			c.SessionEncryptionKey = k
+			c.ForceHTTPS = false
+			c.EnablePKCE = false
+			c.LogLevel = "none"
+			c.RateLimit = 100000
+			if h, err := New(context.Background(), &vfDownstream{}, c, "vf-earlier"); err == nil {
+				vfWaitReady(h.(*TraefikOidc), 5*time.Second)
+			}
+		}
+	})
 	w.prov.revocation = cfg.Revocation
 	w.prov.challengeMethods = cfg.ChallengeMethods
 	w.prov.txnRedirect = cfg.TxnRedirect
